@@ -401,5 +401,8 @@ func (m *monitor) stageHistory() {
 		}
 		h.run(s, other)
 	}
+	// pass 3: identity objects that have failed, against files for degenerate
+	// images of their own secret (wiped.go)
+	h.wipedImages()
 	m.r.Set("history_subjects_built", len(subs))
 }
